@@ -143,6 +143,7 @@ def quota (bits : Nat) (n : Nat) : Option Int :=
   match decode bits with
   | none => none
   | some (sign, mant, expo) =>
+    if mant * n = 0 then some 0 else      -- ±0: Ceil gives ±0, the conversion 0
     let r := roundProd mant n expo
     let m := r.1
     let e := r.2
